@@ -76,21 +76,40 @@ Section LfuBridge.
   Lemma nth_upd_same A (l : list A) i a b : nth_error l i = Some a -> nth_error (upd_nth i b l) i = Some b.
   Proof. intros N. apply nth_error_upd_same. apply nth_error_Some. congruence. Qed.
 
+  (* ---- what do_access may rely on (the class invariant, at one node): the element of a used node is pointed at by
+     both lookup structures — the index entry of its key and its own multimap pair hold the iterator of ITS node.  So
+     `e.m_keyed_position->second` and `e.m_lfu_position->second` are the same list iterator, and the source may read
+     either.  It holds in every state a history of public calls reaches ([good] below, from LfuLitFacts.v). ---- *)
+  Definition node_ok (s : lfdl K V) (n : nat) : Prop :=
+    exists e k, nth_error (dl_cells s) n = Some e /\ dc_keyed e = Some k /\ dc_lfu e = Some n /\
+                assoc k (dl_index s) = Some n.
+  Definition ix_ok (s : lfdl K V) : Prop := forall k n, assoc k (dl_index s) = Some n -> node_ok s n.
+
+  (* with the content of node [n] known, every read / write of its cell computes, in whatever order and however
+     often the source performs them *)
+  Lemma vset_upd_some A w (l : list A) i a x y :
+    nth_error l i = Some a -> vset w (upd_nth i x l) i y = Ok (upd_nth i y l).
+  Proof. intros N. rewrite (vset_some _ _ _ _ _ _ (nth_upd_same _ _ _ _ x N)). rewrite upd_nth_twice. reflexivity. Qed.
+  Ltac vnorm N :=
+    repeat progress (proj; cbn [bind it_node];
+                     rewrite ?N, ?(nth_upd_same _ _ _ _ _ N), ?(vset_some _ _ _ _ _ _ N), ?(vset_upd_some _ _ _ _ _ _ _ N)).
+
   (* do_access(e): the reference parameter is not re-checked by the callee; the literal function
      starts from the node and re-derives the reference, so the node has to be in the list (every
      caller has just dereferenced a list iterator to it) *)
   Lemma g_do_access_ok (s : lfdl K V) (n : nat) now :
-    mem_nat n (dl_list s) = true -> req (g_do_access s n) (dl_access false s n now).
+    mem_nat n (dl_list s) = true -> node_ok s n -> req (g_do_access s n) (dl_access false s n now).
   Proof.
-    intros M. unfold g_do_access, dl_access, dcell_of, l_deref. rewrite M. cbn [bind]. unfold vget.
-    destruct (nth_error (dl_cells s) n) as [e|] eqn:N; cbn [bind]; [|exact I].
-    destruct (mm_deref (dl_mm s) (dc_lfu e)) as [c|]; cbn [bind]; [|exact I].
-    destruct (mm_erase (dl_mm s) (dc_lfu e)) as [m1|]; cbn [bind]; [|exact I]. proj. rewrite N. cbn [bind].
-    unfold mit_second, keyed_second.
-    destruct (dc_keyed e) as [k|] eqn:Ek; cbn [bind]; [|exact I].
-    destruct (assoc k (dl_index s)) as [kn|]; cbn [bind it_node]; [|exact I].
-    rewrite !(vset_some _ _ _ _ _ _ N). cbn [bind req]. unfold set_dl_cells, set_dl_mm, set_dc_lfu. proj. rewrite ?Ek.
-    same_state; f_equal; lia.   (* the new use count, however the source writes "one more" *)
+    intros M (e & k & N & Ek & El & A).
+    unfold g_do_access, dl_access, dcell_of, l_deref, keyed_second, mit_second, mm_deref, mm_second, mm_erase, vget.
+    rewrite M.
+    (* the one thing that is not known: is the multimap pair of the node still there *)
+    destruct (mm_count n (dl_mm s)) as [c|] eqn:C;
+      repeat progress (vnorm N; rewrite ?Ek, ?El, ?A, ?C).
+    - cbn [req]. same_state.
+      all: try (f_equal; lia).   (* the new use count, however the source writes "one more" *)
+      all: f_equal; apply dcell_ext; proj; rewrite ?Ek, ?El; reflexivity.
+    - exact I.
   Qed.
 
   Lemma g_do_erase_ok (s : lfdl K V) (n : nat) : req (g_do_erase s (It n)) (dl_do_erase s n).
@@ -106,7 +125,8 @@ Section LfuBridge.
     unfold g_do_prune, dl_do_prune. cbn [bind].
     destruct (dl_mm s) as [|[c n] r] eqn:M; unfold mm_begin, mm_second.
     - unfold bind. crush; finish.
-    - rewrite mm_count_head. cbn [bind].
+    - (* *begin(), ->second, a reference to the first pair read later: every dereference of the first node computes *)
+      repeat progress (rewrite ?mm_count_head; cbn [bind]).
       callee (g_do_erase_ok s n). unfold bind. crush; finish.
   Qed.
 
@@ -153,30 +173,36 @@ Section LfuBridge.
       unfold dcell_of, l_deref.
       destruct (dl_end s1) as [n|] eqn:EE; cbn [bind]; [|exact I].
       destruct (mem_nat n (dl_list s1)); cbn [bind it_node]; [|exact I].
-      unfold umap_emplace. rewrite A1. proj. rewrite EE. cbn [bind it_node]. unfold vget.
+      (* the slot is m_open_list_end, read from the member or from a local copy of it taken before *)
+      unfold umap_emplace. rewrite A1. proj. rewrite ?EE. cbn [bind it_node]. unfold vget.
       destruct (nth_error (dl_cells s1) n) as [e|] eqn:N; cbn [bind].
-      + destruct (index_emplace (dl_cap s1) (dl_index s1) k n) as [ix|]; cbn [bind]; [|exact I]. proj.
-        rewrite !(vset_some _ _ _ _ _ _ N). cbn [bind]. proj.
-        rewrite (nth_upd_same _ _ _ _ _ N). cbn [bind].
-        rewrite (vset_some _ _ _ _ _ _ (nth_upd_same _ _ _ _ _ N)). cbn [bind]. proj.
-        rewrite upd_nth_twice.
-        rewrite (nth_upd_same _ _ _ _ _ N). cbn [bind].
-        rewrite (vset_some _ _ _ _ _ _ (nth_upd_same _ _ _ _ _ N)). cbn [bind]. proj.
-        rewrite upd_nth_twice.
+      + destruct (index_emplace (dl_cap s1) (dl_index s1) k n) as [ix|]; cbn [bind]; [|exact I].
+        repeat progress (vnorm N; rewrite ?EE).
         destruct (l_next (dl_list s1) (It n)) as [ne|]; cbn [bind req]; [|exact I].
-        same_state.
-      + destruct (index_emplace (dl_cap s1) (dl_index s1) k n) as [ix|]; cbn [bind]; [|exact I]. proj.
+        same_state. all: try (f_equal; apply dcell_ext; proj; reflexivity).
+      + destruct (index_emplace (dl_cap s1) (dl_index s1) k n) as [ix|]; cbn [bind]; [|exact I].
+        repeat progress (proj; cbn [bind it_node]; rewrite ?N, ?EE).
         exact I.
   Qed.
 
-  Lemma g_do_update_ok (s : lfdl K V) k n v now :
-    assoc k (dl_index s) = Some n -> req (g_do_update s (Some k) v) (dl_do_update false s n v now).
+  (* writing the value of a node leaves what do_access relies on in place *)
+  Lemma node_ok_set_val (s : lfdl K V) n e v :
+    nth_error (dl_cells s) n = Some e -> node_ok s n ->
+    node_ok (with_cells s (upd_nth n {| dc_keyed := dc_keyed e; dc_lfu := dc_lfu e; dc_age := dc_age e; dc_val := v |}
+                                   (dl_cells s))) n.
   Proof.
-    intros A. unfold g_do_update, dl_do_update, mit_second, dcell_of, l_deref. rewrite A. cbn [bind].
+    intros N (e' & k & N' & Ek & El & A). rewrite N in N'. inversion N'; subst e'.
+    eexists _, k. proj. split; [eapply nth_upd_same; exact N|]. proj. auto.
+  Qed.
+
+  Lemma g_do_update_ok (s : lfdl K V) k n v now :
+    assoc k (dl_index s) = Some n -> node_ok s n -> req (g_do_update s (Some k) v) (dl_do_update false s n v now).
+  Proof.
+    intros A NO. unfold g_do_update, dl_do_update, mit_second, dcell_of, l_deref. rewrite A. cbn [bind].
     destruct (mem_nat n (dl_list s)) eqn:M; cbn [bind]; [|exact I]. unfold vget.
     destruct (nth_error (dl_cells s) n) as [e|] eqn:N; cbn [bind]; [|exact I].
     rewrite !(vset_some _ _ _ _ _ _ N). cbn [bind].
-    eapply req_trans; [|apply (g_do_access_ok _ n now); exact M].
+    eapply req_trans; [|apply (g_do_access_ok _ n now); [exact M|exact (node_ok_set_val s n e (Some v) N NO)]].
     unfold set_dl_cells, set_dc_val, with_cells. destruct (g_do_access _ n); simpl; auto.
   Qed.
 
@@ -190,10 +216,11 @@ Section LfuBridge.
   (* do_insert_update: the key is found or not, the operation it needs is allowed or not (a_upd / a_ins are pure bit
      tests of `a`, so where and how often the source evaluates them does not matter): in each of the cases both sides
      reduce, whether the source nests the tests or bails out first on the De Morgan negation *)
-  Lemma g_do_insert_update_ok (s : lfdl K V) k v a now : req (g_do_insert_update s k v a) (dl_ins false s k v a now).
+  Lemma g_do_insert_update_ok (s : lfdl K V) k v a now :
+    ix_ok s -> req (g_do_insert_update s k v a) (dl_ins false s k v a now).
   Proof.
-    unfold g_do_insert_update, dl_ins. found k s n A.
-    - pose proof (g_do_update_ok s k n v now A) as P. unfold req in P. revert P.
+    intros IX. unfold g_do_insert_update, dl_ins. found k s n A.
+    - pose proof (g_do_update_ok s k n v now A (IX _ _ A)) as P. unfold req in P. revert P.
       destruct (a_upd a), (a_ins a); cbn [bind negb andb orb]; unfold bind; crush; finish.
     - pose proof (g_do_insert_ok s k v now A) as P. unfold req in P. revert P.
       destruct (a_upd a), (a_ins a); cbn [bind negb andb orb]; unfold bind; crush; finish.
@@ -205,6 +232,7 @@ Section LfuBridge.
 
   (* what both find functions do before they read the element *)
   Lemma find_prefix (s : lfdl K V) n pk now :
+    node_ok s n ->
     req (do d <- l_deref (dl_list s) (It n);
          do s1 <- (if negb pk then (do s0 <- g_do_access s d; Ok s0) else Ok s);
          Ok (s1, d))
@@ -212,19 +240,19 @@ Section LfuBridge.
          do d <- l_deref (dl_list s1) (It n);
          Ok (s1, d)).
   Proof.
-    unfold l_deref. destruct (mem_nat n (dl_list s)) eqn:M; cbn [bind].
+    intros NO. unfold l_deref. destruct (mem_nat n (dl_list s)) eqn:M; cbn [bind].
     - destruct pk; cbn [negb bind]; [rewrite M; simpl; auto|].
-      callee (g_do_access_ok s n now M).
+      callee (g_do_access_ok s n now M NO).
       destruct (g_do_access s n) as [s1|], (dl_access false s n now) as [s2|] eqn:L; cbn [bind]; intros P; try contradiction; auto.
       subst s2. rewrite (dl_access_list _ _ _ _ L), M. simpl. auto.
     - destruct pk; cbn [negb bind]; [rewrite M; simpl; auto|].
       unfold dl_access, dcell_of, l_deref. rewrite M. simpl. auto.
   Qed.
 
-  Lemma g_do_find_ok (s : lfdl K V) k pk now : req (g_do_find s k pk) (dl_find false s k pk now).
+  Lemma g_do_find_ok (s : lfdl K V) k pk now : ix_ok s -> req (g_do_find s k pk) (dl_find false s k pk now).
   Proof.
-    unfold g_do_find, dl_find. found k s n A; [|simpl; auto].
-    callee (find_prefix s n pk now). unfold dcell_of.
+    intros IX. unfold g_do_find, dl_find. found k s n A; [|simpl; auto].
+    callee (find_prefix s n pk now (IX _ _ A)). unfold dcell_of.
     destruct (l_deref (dl_list s) (It n)) as [d|]; cbn [bind].
     - destruct (if negb pk then _ else _) as [s1|]; cbn [bind];
         destruct (if pk then _ else _) as [s2|]; cbn [bind]; intros P; try contradiction; auto;
@@ -235,10 +263,10 @@ Section LfuBridge.
   Qed.
 
   Lemma g_do_find_with_use_count_ok (s : lfdl K V) k pk now :
-    req (g_do_find_with_use_count s k pk) (dl_find_use false s k pk now).
+    ix_ok s -> req (g_do_find_with_use_count s k pk) (dl_find_use false s k pk now).
   Proof.
-    unfold g_do_find_with_use_count, dl_find_use. found k s n A; [|simpl; auto].
-    callee (find_prefix s n pk now). unfold dcell_of.
+    intros IX. unfold g_do_find_with_use_count, dl_find_use. found k s n A; [|simpl; auto].
+    callee (find_prefix s n pk now (IX _ _ A)). unfold dcell_of.
     destruct (l_deref (dl_list s) (It n)) as [d|]; cbn [bind].
     - destruct (if negb pk then _ else _) as [s1|]; cbn [bind];
         destruct (if pk then _ else _) as [s2|]; cbn [bind]; intros P; try contradiction; auto;
@@ -255,22 +283,57 @@ Section LfuBridge.
     callee (g_do_erase_ok s n). unfold bind. crush; finish.
   Qed.
 
+  (* ---- the states a history of public calls reaches: those that represent a state of the mid-level model
+     (LfuLitFacts.v: fu_rep, kept by every public call).  In them every index entry leads to a node that both lookup
+     structures point back at, which is what do_access may rely on. ---- *)
+  Definition good (l : lfdl K V) : Prop := exists t s, lfu_inv t s /\ fu_rep l s.
+
+  Lemma good_init cap : 1 <= cap -> good (lfdl_init cap 1 1 0).
+  Proof. intros Hc. exists 0%Z, (lfu_init cap). split; [apply lfu_inv_init; auto; lia|apply fu_rep_init; auto]. Qed.
+
+  Lemma good_ix l : good l -> ix_ok l.
+  Proof.
+    intros (t & s & IU & Rp) k n A. destruct (frep_elim _ _ Rp) as (used & free & R).
+    destruct (frep_lookup _ _ _ _ _ _ R (lfu_nodup t s IU) A) as (_ & v & a & z & Ec & _).
+    exists (mkcell k n a v), k. cbn. auto.
+  Qed.
+
+  Lemma good_ins l k v a now l1 b : good l -> dl_ins false l k v a now = Ok (l1, b) -> good l1.
+  Proof.
+    intros (t & s & IU & Rp) E. destruct (fu_ins_ref t l s k v a now IU Rp) as (l' & D & R').
+    rewrite D in E. inversion E; subst. exists t, (fst (lf_ins s k v a 0)). split; auto. apply lfu_ins_inv; auto.
+  Qed.
+
+  Lemma good_find l k pk now l1 r : good l -> dl_find false l k pk now = Ok (l1, r) -> good l1.
+  Proof.
+    intros (t & s & IU & Rp) E. destruct (fu_find_ref t l s k pk now IU Rp) as (l' & D & R').
+    rewrite D in E. inversion E; subst. exists t, (fst (lf_find s k pk 0)). split; auto. apply lfu_find_inv; auto.
+  Qed.
+
+  Lemma good_step l o now rnd l1 r : good l -> dl_step false l o now rnd = Ok (l1, r) -> good l1.
+  Proof.
+    intros (t & s & IU & Rp) E. destruct (fu_step_refines_t t l s o now rnd IU Rp) as (l' & D & R' & I').
+    rewrite D in E. inversion E; subst. exists t, (fst (lfu_step s o now rnd)). auto.
+  Qed.
+
   (* ---- the range calls: the generated range-for loops against the literal recursions ---- *)
   Definition strip (l : list (Z * K * V)) : list (K * V) := map (fun x => (snd (fst x), snd x)) l.
 
   Lemma req_eq A (x y : res A) : x = y -> req x y.
   Proof. intros ->. apply req_refl. Qed.
 
-  Lemma g_insert_range_ok (s : lfdl K V) l a now : req (g_insert_range s (strip l) a) (dl_ins_range false s l a now 0).
+  Lemma g_insert_range_ok (s : lfdl K V) l a now :
+    good s -> req (g_insert_range s (strip l) a) (dl_ins_range false s l a now 0).
   Proof.
-    unfold g_insert_range.
+    intros GS. unfold g_insert_range.
     match goal with |- req (bind (foldM ?F _ _) _) _ =>
-      assert (G : forall l s n, req (foldM F (strip l) (s, n)) (dl_ins_range false s l a now n)) end.
-    { clear. induction l as [|[[z k] v] r IH]; intros s n; simpl; auto.
-      callee (g_do_insert_update_ok s k v a now). unfold bind at 1 2 3.
-      destruct (g_do_insert_update s k v a) as [[s1 b]|], (dl_ins false s k v a now) as [[s2 b2]|]; intros P; try contradiction; auto.
-      inversion P; subst. destruct b2; cbn [bind]; (eapply req_trans; [apply IH|]); apply req_eq; f_equal; lia. }
-    specialize (G l s 0). revert G.
+      assert (G : forall l s n, good s -> req (foldM F (strip l) (s, n)) (dl_ins_range false s l a now n)) end.
+    { clear. induction l as [|[[z k] v] r IH]; intros s n GS; simpl; auto.
+      callee (g_do_insert_update_ok s k v a now (good_ix s GS)). unfold bind at 1 2 3.
+      destruct (g_do_insert_update s k v a) as [[s1 b]|], (dl_ins false s k v a now) as [[s2 b2]|] eqn:L; intros P; try contradiction; auto.
+      inversion P; subst. pose proof (good_ins _ _ _ _ _ _ _ GS L) as G2.
+      destruct b2; cbn [bind]; (eapply req_trans; [apply IH; exact G2|]); apply req_eq; f_equal; lia. }
+    specialize (G l s 0 GS). revert G.
     destruct (foldM _ _ _) as [[s' n']|]; cbn [bind]; auto.
   Qed.
 
@@ -290,44 +353,45 @@ Section LfuBridge.
 
   Lemma g_find_range_loop (pk : bool) now F :
     (forall s acc k, F (s, acc) k = (do x <- g_do_find s k pk; let '(s1, r) := x in Ok (s1, acc ++ [(k, r)]))) ->
-    forall l (s : lfdl K V) (acc : list (K * option V)),
+    forall l (s : lfdl K V) (acc : list (K * option V)), good s ->
       req (foldM F l (s, acc)) (do y <- dl_find_range false s l pk now; let '(s2, os) := y in Ok (s2, acc ++ os)).
   Proof.
-    intros HF. induction l as [|k r IH]; intros s acc; simpl.
+    intros HF. induction l as [|k r IH]; intros s acc GS; simpl.
     - rewrite app_nil_r. auto.
-    - rewrite HF. callee (g_do_find_ok s k pk now). unfold bind at 1 2 4 5.
-      destruct (g_do_find s k pk) as [[s1 o]|], (dl_find false s k pk now) as [[s2 o2]|]; intros P; try contradiction; auto.
-      inversion P; subst. eapply req_trans; [apply IH|]. unfold bind.
+    - rewrite HF. callee (g_do_find_ok s k pk now (good_ix s GS)). unfold bind at 1 2 4 5.
+      destruct (g_do_find s k pk) as [[s1 o]|], (dl_find false s k pk now) as [[s2 o2]|] eqn:L; intros P; try contradiction; auto.
+      inversion P; subst. eapply req_trans; [apply IH; exact (good_find _ _ _ _ _ _ GS L)|]. unfold bind.
       destruct (dl_find_range false s2 r pk now) as [[s3 os]|]; simpl; auto. rewrite <- app_assoc. reflexivity.
   Qed.
 
-  Lemma g_find_range_ok (s : lfdl K V) l pk now : req (g_find_range s l pk) (dl_find_range false s l pk now).
+  Lemma g_find_range_ok (s : lfdl K V) l pk now :
+    good s -> req (g_find_range s l pk) (dl_find_range false s l pk now).
   Proof.
-    unfold g_find_range.
+    intros GS. unfold g_find_range.
     match goal with |- req (bind (foldM ?F _ _) _) _ => pose proof (g_find_range_loop pk now F) as G end.
-    specialize (G (fun s acc k => eq_refl) l s []). revert G.
+    specialize (G (fun s acc k => eq_refl) l s [] GS). revert G.
     destruct (foldM _ _ _) as [[s' n']|]; cbn [bind]; destruct (dl_find_range false s l pk now) as [[s2 os]|]; simpl; auto.
   Qed.
 
   Lemma g_find_fill_loop (pk : bool) now F :
     (forall s acc k ov, F (s, acc) (k, ov) = (do x <- g_do_find s k pk; let '(s1, r) := x in Ok (s1, acc ++ [(k, r)]))) ->
-    forall (l : list (K * option V)) (s : lfdl K V) (acc : list (K * option V)),
+    forall (l : list (K * option V)) (s : lfdl K V) (acc : list (K * option V)), good s ->
       req (foldM F l (s, acc)) (do y <- dl_find_range false s (map fst l) pk now; let '(s2, os) := y in Ok (s2, acc ++ os)).
   Proof.
-    intros HF. induction l as [|[k ov] r IH]; intros s acc; simpl.
+    intros HF. induction l as [|[k ov] r IH]; intros s acc GS; simpl.
     - rewrite app_nil_r. auto.
-    - rewrite HF. callee (g_do_find_ok s k pk now). unfold bind at 1 2 4 5.
-      destruct (g_do_find s k pk) as [[s1 o]|], (dl_find false s k pk now) as [[s2 o2]|]; intros P; try contradiction; auto.
-      inversion P; subst. eapply req_trans; [apply IH|]. unfold bind.
+    - rewrite HF. callee (g_do_find_ok s k pk now (good_ix s GS)). unfold bind at 1 2 4 5.
+      destruct (g_do_find s k pk) as [[s1 o]|], (dl_find false s k pk now) as [[s2 o2]|] eqn:L; intros P; try contradiction; auto.
+      inversion P; subst. eapply req_trans; [apply IH; exact (good_find _ _ _ _ _ _ GS L)|]. unfold bind.
       destruct (dl_find_range false s2 (map fst r) pk now) as [[s3 os]|]; simpl; auto. rewrite <- app_assoc. reflexivity.
   Qed.
 
   Lemma g_find_range_fill_ok (s : lfdl K V) (l : list (K * option V)) pk now :
-    req (g_find_range_fill s l pk) (dl_find_range false s (map fst l) pk now).
+    good s -> req (g_find_range_fill s l pk) (dl_find_range false s (map fst l) pk now).
   Proof.
-    unfold g_find_range_fill.
+    intros GS. unfold g_find_range_fill.
     match goal with |- req (bind (foldM ?F _ _) _) _ => pose proof (g_find_fill_loop pk now F) as G end.
-    specialize (G (fun s acc k ov => eq_refl) l s []). revert G.
+    specialize (G (fun s acc k ov => eq_refl) l s [] GS). revert G.
     destruct (foldM _ _ _) as [[s' n']|]; cbn [bind]; destruct (dl_find_range false s (map fst l) pk now) as [[s2 os]|]; simpl; auto.
   Qed.
 
@@ -354,20 +418,20 @@ Section LfuBridge.
   Proof. induction l; simpl; congruence. Qed.
 
   Theorem g_step_ok (s : lfdl K V) (e : ev K V) :
-    req (g_step s e) (dl_step false s (e_op e) (e_now e) (e_rnd e)).
+    good s -> req (g_step s e) (dl_step false s (e_op e) (e_now e) (e_rnd e)).
   Proof.
-    unfold g_step, dl_step.
+    intros GS. pose proof (good_ix s GS) as IX. unfold g_step, dl_step.
     destruct (e_op e); try (simpl; auto; fail);
       try (unfold g_size, g_empty, g_capacity; cbn [bind req]; f_equal; f_equal; apply Bool.eq_true_iff_eq;
            rewrite ?Bool.negb_true_iff, ?Nat.eqb_eq, ?Nat.eqb_neq, ?Nat.ltb_lt, ?Nat.ltb_ge, ?Nat.leb_le, ?Nat.leb_gt; lia).
-    - unfold g_insert. callee (g_do_insert_update_ok s k v a (e_now e)). unfold bind. crush; finish.
-    - callee (g_insert_range_ok s l a (e_now e)). unfold bind. crush; finish.
+    - unfold g_insert. callee (g_do_insert_update_ok s k v a (e_now e) IX). unfold bind. crush; finish.
+    - callee (g_insert_range_ok s l a (e_now e) GS). unfold bind. crush; finish.
     - callee (g_erase_ok s k). unfold bind. crush; finish.
     - callee (g_erase_range_ok s l). unfold bind. crush; finish.
-    - unfold g_find. callee (g_do_find_ok s k peek (e_now e)). unfold bind. crush; finish.
-    - callee (g_find_range_ok s l peek (e_now e)). unfold bind. crush; finish.
-    - callee (g_find_range_fill_ok s (map (fun k => (k, None)) l) peek (e_now e)). rewrite map_fst_fill. unfold bind. crush; finish.
-    - unfold g_find_with_use_count. callee (g_do_find_with_use_count_ok s k peek (e_now e)). unfold bind. crush; finish.
+    - unfold g_find. callee (g_do_find_ok s k peek (e_now e) IX). unfold bind. crush; finish.
+    - callee (g_find_range_ok s l peek (e_now e) GS). unfold bind. crush; finish.
+    - callee (g_find_range_fill_ok s (map (fun k => (k, None)) l) peek (e_now e) GS). rewrite map_fst_fill. unfold bind. crush; finish.
+    - unfold g_find_with_use_count. callee (g_do_find_with_use_count_ok s k peek (e_now e) IX). unfold bind. crush; finish.
   Qed.
 
   (* ---- the theorem the tie delivers: the program text that is in lfu_cache.hpp NOW, run on any
@@ -383,6 +447,18 @@ Section LfuBridge.
     destruct (dl_step false l (e_op e) (e_now e) (e_rnd e)) as [[l1 y]|]; simpl; auto. rewrite IH. reflexivity.
   Qed.
 
+  (* runs of two step functions that agree on the states an invariant describes, from a state it describes *)
+  Lemma run_res_req_inv {S E R : Type} (f g : S -> E -> res (S * R)) (Inv : S -> Prop) :
+    (forall s e, Inv s -> req (f s e) (g s e)) ->
+    (forall s e s1 y, Inv s -> g s e = Ok (s1, y) -> Inv s1) ->
+    forall h s, Inv s -> req (run_res f s h) (run_res g s h).
+  Proof.
+    intros Hfg Hk. induction h as [|e r IH]; intros s Is; simpl; auto.
+    apply req_bind; [auto|]. intros [s1 y] E1.
+    pose proof (Hfg s e Is) as Q. rewrite E1 in Q. apply req_sym, req_ok in Q.
+    apply req_bind; [apply IH; eapply Hk; eauto|]. intros [s2 ys] _. simpl. auto.
+  Qed.
+
   Theorem generated_lfu_no_UB_on_any_history : forall cap (h : list (ev K V)),
       1 <= cap -> Forall (fun e => (0 <= e_now e)%Z) h ->
       exists l', run_res g_step (lfdl_init cap 1 1 0) h = Ok (l', snd (run lfu_step (lfu_init cap) h)) /\
@@ -391,9 +467,10 @@ Section LfuBridge.
     intros cap h Hc Hn.
     destruct (fu_no_UB_on_any_history cap h Hc Hn) as (l' & D & R).
     exists l'. split; auto.
-    pose proof (run_res_req g_step (fun l e => dl_step false l (e_op e) (e_now e) (e_rnd e)) (fun _ => True)
-                  (fun s e _ => g_step_ok s e) h (lfdl_init cap 1 1 0)) as Q.
-    rewrite <- fu_run_is_run_res, D in Q. apply req_ok. apply Q. clear. induction h; constructor; auto.
+    pose proof (run_res_req_inv g_step (fun l e => dl_step false l (e_op e) (e_now e) (e_rnd e)) good
+                  (fun s e G => g_step_ok s e G) (fun s e s1 y G E => good_step s _ _ _ s1 y G E)
+                  h (lfdl_init cap 1 1 0) (good_init cap Hc)) as Q.
+    rewrite <- fu_run_is_run_res, D in Q. apply req_ok. exact Q.
   Qed.
 
   (* ---- the constructor, translated (member initialisers + body): it builds the literal machine's initial state,
